@@ -741,6 +741,12 @@ func c01Scenarios(tier string) []scenario {
 		prm := c05Params{Prop: "C01", Name: "W3", K: k, Writers: [][]wop{{{Chunks: []int{10}}, {Chunks: []int{11}}}, {{Text: true, Chunks: []int{12}}}, {{Stream: true, Chunks: []int{6, 7}}}}}
 		scs = append(scs, scenario{Name: prm.Name + "/" + k.String(), Cfg: explore.Config{P: 2, Horizon: 60e9}, Setup: c05Setup(prm)})
 	}
+	// a Ping, and the Pong answering the peer's Ping, take the frame lock between the
+	// frames of a compressed message (every compressed message has at least two frames)
+	for _, k := range []connCfg{{Client: false, Flate: true, Thr: 1}, {Client: true, Flate: true, Thr: 1, CNCT: true, SNCT: true}} {
+		prm := c05Params{Prop: "C01", Name: "WP-flate", K: k, Writers: [][]wop{{{Stream: true, Text: true, Chunks: []int{300, 300}}, {Chunks: []int{20}}}}, Pinger: true}
+		scs = append(scs, scenario{Name: prm.Name + "/" + k.String(), Cfg: explore.Config{P: p, Horizon: 60e9}, Setup: c05Setup(prm)})
+	}
 	for _, k := range []connCfg{{Client: true}, {Client: false}} {
 		for _, prm := range []c05Params{
 			{Prop: "C01", Name: "WP-4088", K: k, Writers: [][]wop{{{Stream: true, Chunks: []int{4088, 100}}}}, Pinger: true},
